@@ -131,11 +131,11 @@ class ReleaseClient(ir.Client):
         outs, verified, unprot, prov = st
         if unprot:
             return st
-        rv = ir.eval_abs(e, env) if e is not None else None
+        rv = ir.eval_abs(e, env) if e is not None else "void"
         cls = "other"
         if rv == ("c", 0):
             cls = "success"
-        elif rv is not None and rv is not ir.TOP and rv[0] == "c":
+        elif rv != "void" and rv is not ir.TOP and rv[0] == "c":
             if self.errname.get(rv[1]) in AUTH_CLASS:
                 cls = "auth"
         else:
